@@ -40,6 +40,13 @@ func predictACLCalls(stub shim.ChaincodeStubInterface, tasks []*proto.Task, chai
 		wg.Add(1)
 		go func(task *proto.Task) {
 			defer wg.Done()
+			// the prediction is only an optimisation: a malformed task must not take the
+			// chaincode process down from this goroutine (nothing above it recovers)
+			defer func() {
+				if rc := recover(); rc != nil {
+					logger.Logger().Errorf("PredictAcl txID %s: task %s: panic: %v", stub.GetTxID(), task.GetId(), rc)
+				}
+			}()
 
 			p.predictTaskACLCalls(chaincode, task)
 		}(task)
@@ -79,6 +86,9 @@ func (p *predictACL) predictTaskACLCalls(chaincode *Chaincode, task *proto.Task)
 		return
 	}
 
+	if argCount < 1 || len(task.GetArgs()) < 3+(argCount-1) {
+		return
+	}
 	methodArgs := task.GetArgs()[3 : 3+(argCount-1)]
 	methodType := methodVal.Type()
 
